@@ -34,11 +34,14 @@ func TestMain(m *testing.M) {
 // ---- the case -------------------------------------------------------------------------------------
 
 type rtSpec struct {
-	Kind      string   `json:"kind"`      // fresh | copy | template
+	Kind      string   `json:"kind"`      // fresh | copy | copy2 (a copy of a copy; of another runtime of the case when there is one) | template
 	Programs  []string `json:"programs"`  // private programs, run in order
 	Shared    bool     `json:"shared"`    // also runs the shared Script and the shared Program
 	Interrupt bool     `json:"interrupt"` // has an interrupt channel (the evaluator then yields at every step)
 	Seed      int      `json:"seed"`      // per-runtime random source seed
+	// DefaultRandom: the runtime starts without a random source of its own and draws from Math.random's default
+	// one (results not printed) before its seeded source is installed
+	DefaultRandom bool `json:"default_random"`
 }
 
 type raceCase struct {
@@ -133,7 +136,11 @@ func lcg(seed int) func() float64 {
 
 func prepare(vm *otto.Otto, spec rtSpec) {
 	vm.SetStackDepthLimit(200)
-	vm.SetRandomSource(lcg(spec.Seed))
+	if spec.DefaultRandom {
+		vm.SetRandomSource(nil)
+	} else {
+		vm.SetRandomSource(lcg(spec.Seed))
+	}
 	if spec.Interrupt {
 		harness.Arm(vm, 2_000_000)
 	} else {
@@ -170,6 +177,8 @@ func makeRuntime(template *otto.Otto, spec rtSpec) *otto.Otto {
 		vm = otto.New()
 		prepare(vm, rtSpec{Interrupt: true})
 		runOn(vm, heap.Prelude)
+	case "copy2":
+		vm = template.Copy().Copy()
 	default: // copy, template (the template's own stand-in is a copy in the baseline, see execute)
 		vm = template.Copy()
 	}
@@ -180,6 +189,12 @@ func makeRuntime(template *otto.Otto, spec rtSpec) *otto.Otto {
 // script of one runtime: its private programs, the shared script Reuse times and the shared program once
 func execute(vm *otto.Otto, spec rtSpec, script *otto.Script, program *ast.Program, reuse int) []string {
 	var out []string
+	if spec.DefaultRandom {
+		// Math.random without a source of the runtime's own: whatever all runtimes of the process share behind it
+		// is used concurrently; the values themselves are not part of the result
+		out = append(out, "default-random:"+runOn(vm, `(function(){ var ok = 0; for (var i = 0; i < 300; i++) { var r = Math.random(); if (r >= 0 && r < 1) ok++ } return ok })()`))
+		vm.SetRandomSource(lcg(spec.Seed))
+	}
 	for i, p := range spec.Programs {
 		if (i+spec.Seed)%2 == 1 {
 			// pre-parsed route: an *ast.Program that is new to this runtime (and to anything it shares with its template)
@@ -341,14 +356,23 @@ func runCase(c raceCase) (v verdict) {
 	var wg sync.WaitGroup
 	start := make(chan struct{})
 	templateUsed := false
+	var lastCopy *otto.Otto
 	for i, spec := range c.Runtimes {
 		if !c.CopyInPara || spec.Kind == "fresh" {
 			if spec.Kind == "template" && !templateUsed {
 				templateUsed = true
 				vms[i] = tmplB // the template itself keeps running too
 				prepare(vms[i], spec)
+			} else if spec.Kind == "copy2" && lastCopy != nil {
+				// a copy of a copy that is itself in use at the same time (same state as the baseline's
+				// template.Copy().Copy(): neither has run anything yet)
+				vms[i] = lastCopy.Copy()
+				prepare(vms[i], spec)
 			} else {
 				vms[i] = makeRuntime(tmplB, spec)
+			}
+			if spec.Kind == "copy" || spec.Kind == "copy2" {
+				lastCopy = vms[i]
 			}
 		}
 	}
@@ -438,12 +462,12 @@ func checkRace(c raceCase) harness.Outcome {
 		out.Discard = v.Discard
 		return out
 	}
-	out.Nontrivial = v.Sharing >= 2 || countKind(c, "copy")+countKind(c, "template") >= 2
+	out.Nontrivial = v.Sharing >= 2 || countKind(c, "copy")+countKind(c, "copy2")+countKind(c, "template") >= 2
 	out.Classes = append(out.Classes, fmt.Sprintf("runtimes:%d", v.Runtimes), fmt.Sprintf("procs:%d", c.Procs))
 	if c.CopyInPara {
 		out.Classes = append(out.Classes, "copy-in-parallel")
 	}
-	for _, k := range []string{"fresh", "copy", "template"} {
+	for _, k := range []string{"fresh", "copy", "copy2", "template"} {
 		if countKind(c, k) > 0 {
 			out.Classes = append(out.Classes, "kind:"+k)
 		}
@@ -467,7 +491,7 @@ func countKind(c raceCase, k string) int {
 
 var raceFacet = harness.Register(&harness.Facet[raceCase]{
 	Name: "concurrent-runtimes",
-	Rule: "rapid: a template history (all heap builders plus 1-3 drawn ones), one shared source compiled once to a Script and parsed once to a Program, and 2-8 runtimes of mixed provenance (fresh, copies of the template, the template itself), each with 1-4 private programs followed by a call of every function left in the global scope (heap builders/mutators, programs touching every subsystem with package-level data: regexp, JSON, Date, sort, number formatting, Math with a per-runtime random source, URI functions, error creation and stack text, accessor descriptors, Function/eval, strings; 30% from the semantic generator), half of them with an interrupt channel, a Script reuse count 1-50, GOMAXPROCS 2/4/16, optionally Copy() of the template from several goroutines while it runs. Executed in a -race worker subprocess. Oracle: (1) no race report / fatal error (worker death is attributed to the case), (2) each runtime's results and host-free trace equal those of the same programs run alone sequentially, (3) the structural hash of the compiled Script (read-only reflection over all fields) is unchanged by execution. Non-trivial = at least two runtimes share the Script/Program or the template; distinct by case",
+	Rule: "rapid: a template history (all heap builders plus 1-3 drawn ones), one shared source compiled once to a Script and parsed once to a Program, and 2-8 runtimes of mixed provenance (fresh, copies of the template, copies of such copies that run at the same time, the template itself; a third of them first draw from Math.random without a source of their own), each with 1-4 private programs followed by a call of every function left in the global scope (heap builders/mutators, programs touching every subsystem with package-level data: regexp, JSON, Date, sort, number formatting, Math with a per-runtime random source, URI functions, error creation and stack text, accessor descriptors, Function/eval, strings; 30% from the semantic generator), half of them with an interrupt channel, a Script reuse count 1-50, GOMAXPROCS 2/4/16, optionally Copy() of the template from several goroutines while it runs. Executed in a -race worker subprocess. Oracle: (1) no race report / fatal error (worker death is attributed to the case), (2) each runtime's results and host-free trace equal those of the same programs run alone sequentially, (3) the structural hash of the compiled Script (read-only reflection over all fields) is unchanged by execution. Non-trivial = at least two runtimes share the Script/Program or the template; distinct by case",
 	Quick:    32,
 	Thorough: 40,
 	Gen: func(t *rapid.T) raceCase {
@@ -479,8 +503,8 @@ var raceFacet = harness.Register(&harness.Facet[raceCase]{
 		c.CopyInPara = rapid.IntRange(0, 3).Draw(t, "copypara") == 0
 		n := rapid.IntRange(2, 8).Draw(t, "nruntimes")
 		for i := 0; i < n; i++ {
-			spec := rtSpec{Kind: rapid.SampledFrom([]string{"fresh", "copy", "copy", "template"}).Draw(t, "kind"), Shared: rapid.IntRange(0, 2).Draw(t, "sharing") > 0,
-				Interrupt: rapid.Bool().Draw(t, "interrupt"), Seed: rapid.IntRange(1, 1000).Draw(t, "seed")}
+			spec := rtSpec{Kind: rapid.SampledFrom([]string{"fresh", "copy", "copy", "copy2", "template"}).Draw(t, "kind"), Shared: rapid.IntRange(0, 2).Draw(t, "sharing") > 0,
+				Interrupt: rapid.Bool().Draw(t, "interrupt"), Seed: rapid.IntRange(1, 1000).Draw(t, "seed"), DefaultRandom: rapid.IntRange(0, 2).Draw(t, "defrandom") == 0}
 			for j, m := 0, rapid.IntRange(1, 4).Draw(t, "nprog"); j < m; j++ {
 				switch rapid.IntRange(0, 2).Draw(t, "ptype") {
 				case 0:
